@@ -132,6 +132,10 @@ fn intops(d: &mut Drv) {
             d.call("cmp", || ab("le"), || bools(va.partial_cmple(&vb))); d.call("cmp", || ab("lt"), || bools(va.partial_cmplt(&vb)));
             d.call("cmp", || ab("ge"), || bools(va.cmpge_simd(vb)));   d.call("cmp", || ab("lt"), || bools(va.cmplt_simd(vb)));
             d.call("cmp", || ab("eq"), || bools(va.cmpeq_simd(vb)));   d.call("cmp", || ab("gt"), || bools(va.partial_cmpgt_simd(vb)));
+            d.call("cmp", || ab("gt"), || bools(va.cmpgt_simd(vb)));   d.call("cmp", || ab("le"), || bools(va.cmple_simd(vb)));
+            d.call("cmp", || ab("ne"), || bools(va.cmpne_simd(vb)));   d.call("cmp", || ab("ge"), || bools(va.partial_cmpge_simd(vb)));
+            d.call("cmp", || ab("lt"), || bools(va.partial_cmplt_simd(vb))); d.call("cmp", || ab("le"), || bools(va.partial_cmple_simd(vb)));
+            d.call("cmp", || ab("eq"), || bools(va.partial_cmpeq_simd(vb))); d.call("cmp", || ab("ne"), || bools(va.partial_cmpne_simd(vb)));
             d.call("minmax", || ab("min"), || ints($V::min(va, vb)));  d.call("minmax", || ab("max"), || ints($V::max(va, vb)));
             d.call("minmax", || ab("min"), || ints($V::partial_min(va, vb))); d.call("minmax", || ab("max"), || ints($V::partial_max(va, vb)));
             let sc = b[0];
